@@ -22,16 +22,21 @@ Init ==
   /\ cfg \in MCCfgs
   /\ live = {[r |-> "R", d |-> "d", n |-> "a", o |-> 1], [r |-> "V1", d |-> "top", n |-> "a", o |-> 2]}
   /\ dirs = {[r |-> r, d |-> "top"] : r \in Regions} \cup {[r |-> r, d |-> "d"] : r \in cfg.mounted}
-  /\ tex = {} /\ items = {} /\ orph = {} /\ strays = {} /\ junk = {}
+  \* either nothing is trashed yet, or the other user already has an entry under $topdir/.Trash/$uid2 of V1 (where
+  \* $topdir/.Trash exists as a directory or a link to one)
+  /\ \/ tex = {} /\ items = {}
+     \/ /\ cfg.top["V1"] \notin {"absent", "file"}
+        /\ tex = {O1("V1")} /\ items = {[t |-> O1("V1"), o |-> 3, r |-> "V1", d |-> "d", n |-> "a", date |-> 0]}
+  /\ orph = {} /\ strays = {} /\ junk = {}
   /\ clock = 0 /\ purged = {} /\ out = [cmd |-> "init"]
 
 Next ==
   \/ \E a \in MCArgs, o \in MCPutOpts : Put(<<a>>, o)
   \/ \E a, b \in MCArgs, o \in MCPutOpts : a # b /\ o.inter = "off" /\ ~o.hf /\ Put(<<a, b>>, o)
-  \/ List("none")
+  \/ List("none") \/ List("all")
   \/ \E f \in [k : {"root"}] \cup [k : {"dir"}, r : {"R", "V1"}, d : {"top", "d"}], sort \in {"date", "path", "none"},
         reply \in ReplySet(2), ow \in BOOLEAN : Restore(f, "none", sort, reply, ow)
-  \/ \E o \in [days : {-1, 0, 1}, dry : BOOLEAN, consent : {"auto", "yes", "no"}, td : {"none"}] : Empty(o)
+  \/ \E o \in [days : {-1, 0, 1}, dry : BOOLEAN, consent : {"auto", "yes", "no"}, td : {"none", "all"}] : Empty(o)
   \/ \E p \in [k : {"name"}, n : {"a"}] \cup [k : {"path"}, r : {"V1"}, d : {"top"}, n : {"a"}] \cup [k : {"all", "nomatch"}] : Rm(p)
   \/ Tick
   \/ \E r \in {"R", "V1"}, d \in {"top", "d"}, o \in Objs : Create(r, d, "a", o)
